@@ -609,7 +609,7 @@ pub fn run(tier: &str) -> i32 {
 }
 
 /// The program corpus for the repetition sweep: many shapes, several of each kind of item.
-fn corpus() -> Vec<(String, String, Config)> {
+pub fn corpus() -> Vec<(String, String, Config)> {
     let full = Config { bytemuck_vertex: true, encase: true, serde: true, repr: Repr::Glam, ..Config::default() };
     let mut v: Vec<(String, String, Config)> = vec![];
     for a in crate::c01::atoms(false) {
